@@ -659,6 +659,101 @@ def check_member_start_after_comments(rep, crate, cfg, rule='R13.10'):
     return n
 
 
+
+def check_grammar(fx, rep, rule='R13.11'):
+    """engine M (rules/grammar.py): the token language of the phrase-level parser, extracted from its syntax tree, lies between what the
+    property demands (L_min) and the Varlink grammar (L_max), for the recursive type production and for the whole interface"""
+    import ast as A
+    import grammar as G
+    where = 'zlink-core/src/idl/parse/mod.rs'
+    fns = {}
+    for fn, n, info in A.all_fns(fx.tpl, 'idl/parse/'):
+        if '/tests' in fn or fn.endswith('tests.rs'):
+            continue
+        fns[n['name']] = n
+    scanners = {}
+    atoms = {'interface_name': 'IN', 'type_name': 'TN', 'field_name': 'FN'}
+    for path in SCANNERS:
+        nm = path.split('::')[-1]
+        if nm in fns and nm in atoms:
+            scanners[nm] = atoms[nm]
+    if len(scanners) != 3:
+        rep.bad(rule, 'anchor|scanners', where, 'the three name scanners %s are not all present in the parser module: found %s' % (sorted(atoms), sorted(scanners)))
+        return
+    probe = G.Extractor(fns, scanners)
+    parser_fns = sorted(n for n in fns if probe.is_parser_fn(n) and n not in scanners and n not in G.LEXICAL)
+    # call graph among the phrase-level parser functions (any mention of a parser fn inside a body)
+    graph = {}
+    for n in parser_fns:
+        refs = set()
+        for x in A.nodes(fns[n]['body']):
+            t = None
+            if x.get('k') == 'path':
+                t = x['text']
+            elif x.get('k') == 'call':
+                t = x['func'] if isinstance(x['func'], str) else A.text(x['func'])
+            if t:
+                b = t.split('::<')[0].split('::')[-1]
+                if b in parser_fns:
+                    refs.add(b)
+        graph[n] = refs
+    # the recursive cycle and its entry
+    def reach(a):
+        seen, st = set(), [a]
+        while st:
+            x = st.pop()
+            for y in graph.get(x, ()):
+                if y not in seen:
+                    seen.add(y)
+                    st.append(y)
+        return seen
+    rec = {n for n in parser_fns if n in reach(n)}
+    entries = sorted(n for n in rec if any(n in graph[m] for m in parser_fns if m not in rec))
+    if len(entries) != 1:
+        rep.bad(rule, 'anchor|type-entry', where, 'expected the recursive part of the parser (the type productions) to be entered through exactly one function, found %s '
+                '(recursive functions: %s)' % (entries, sorted(rec)))
+        return
+    cut = entries[0]
+    # entry of the module: the non-parser function taking the text and returning the interface
+    tops = sorted(n for n, f in fns.items() if not probe.is_parser_fn(n) and 'Interface' in (f.get('sig') or '').split('->')[-1] and 'str' in (f.get('sig') or '').split('->')[0])
+    if len(tops) != 1:
+        rep.bad(rule, 'anchor|entry', where, 'expected exactly one entry function (&str -> Result<Interface, _>) in the parser module, found %s' % tops)
+        return
+    ref = G.reference()
+    for prod, start in (('type', cut), ('interface', tops[0])):
+        ex = G.Extractor(fns, scanners, cut=cut)
+        try:
+            if prod == 'type':
+                ex.stack.append(('<top>', {}))
+                ex.stack.pop()
+            r = ex.fn_lang(start)
+            if ex.trim:
+                r = G.cat(G.star(G.S), r)
+        except G.Unmodelled as e:
+            rep.bad(rule, '%s|extract' % prod, where, 'the %s production cannot be extracted from %s: %s (constructs outside the modelled set - winnow combinators, `?`, '
+                    'if/match on parser results, loops - fail closed)' % (prod, start, e))
+            continue
+        except RecursionError:
+            rep.bad(rule, '%s|extract' % prod, where, 'extraction of the %s production does not terminate' % prod)
+            continue
+        try:
+            w1 = G.included(ref[prod][0], r)
+            w2 = G.included(r, ref[prod][1])
+        except G.Unmodelled as e:
+            rep.bad(rule, '%s|compare' % prod, where, str(e))
+            continue
+        nfun = len(ex.memo)
+        rep.check(w1 is None, rule, '%s|accepts-what-the-grammar-requires' % prod, where,
+                  'every token string the property requires for the %s production (white space between any two tokens, comment lines before the interface / members / fields / variants) '
+                  'is accepted by the extracted parser language (%d functions inlined from %s)' % (prod, nfun, start),
+                  'the parser rejects a legal text: the token string  %s  is required by the grammar but is not in the language extracted from %s' % (G.word(w1 or []), start),
+                  detail={'witness': w1})
+        rep.check(w2 is None, rule, '%s|accepts-nothing-else' % prod, where,
+                  'every token string accepted by the extracted parser language of the %s production is in the Varlink grammar (with `_` = white space / comment)' % prod,
+                  'the parser accepts a text outside the grammar: the token string  %s  is accepted by %s but is not derivable in the Varlink grammar' % (G.word(w2 or []), start),
+                  detail={'witness': w2})
+
+
 def check(fx, rep, tier):
     rep.rule('R13.9', 'phrase-level parser functions never search the unparsed bytes ahead (position / contains / find ...): such look-ahead is blind to comments and nesting; only the lexical helpers inspect raw bytes')
     rep.rule('R13.10', 'the nearest parser step before every member-name scan is comment-aware (ws / parse_preceding_comments) or a token, never the comment-blind white-space skip')
@@ -672,6 +767,11 @@ def check(fx, rep, tier):
     rep.rule('R13.3', 'every loop cycle passes a consuming step or the loop has an explicit no-progress exit')
     rep.rule('R13.4', 'the entry function returns Ok only when no input remains')
     rep.rule('R13.6', 'every accumulator that received parsed elements is moved into the result on every feasible Ok path')
+    rep.rule('R13.11', 'phrase level: the token language of the parser functions (extracted from their syntax trees: sequencing, `?`, forks on parser results, loops as '
+             'right-linear equations, winnow combinators) lies between what the property requires and the Varlink grammar, by regular-language inclusion, '
+             'for the recursive type production and for the interface production')
+    check_grammar(fx, rep)
+    rep.floor('R13.11', 4, 'grammar inclusion verdicts (2 productions x 2 directions)')
     cfgs = ['full'] + (['nostd'] if tier == 'thorough' else [])
     nsc = 0
     nms = 0
